@@ -20,7 +20,7 @@ def run(tier, seed):
             raise vlib.InfraError("MC_Twins: %r\n%s" % (r, r.out[-1500:]))
         tr = os.path.join(d, "trace.ndjson")
         args = ["c18", "-out", tr, "-seed", seed]
-        args += ["-limit", 700, "-verdicts", 3000] if tier == "quick" else ["-limit", 20000, "-verdicts", 30000, "-all3"]
+        args += ["-limit", 700, "-verdicts", 3000] if tier == "quick" else ["-limit", 8000, "-verdicts", 15000, "-all3"]
         vlib.run_harness(args, timeout=3000)
         rows = vlib.read_ndjson(tr)
         allrows = rows
